@@ -1004,6 +1004,8 @@ def decode_day_of_week(data: int) -> str:
     daynames = list(DAY_NAMES)
     days = ""
     for each in bits[::-1]:
+        if not daynames:
+            raise ValueError(f"day of week value {data} out of range.")
         if each == '1':
             if len(days) > 0:
                 days += ","
@@ -1019,6 +1021,8 @@ def decode_months(data: int) -> str | None:
     monthnames = list(MONTH_NAMES)
     months = ""
     for each in bits[::-1]:
+        if not monthnames:
+            raise ValueError(f"months value {data} out of range.")
         if each == '1':
             if len(months) > 0:
                 months += ","
